@@ -373,6 +373,11 @@ def _execute(prog, rw, out):
             "no enabled thread while some are unfinished; blocked-on graph: "
             "%r" % (s.blocked_graph,),
             dict(graph=s.blocked_graph, events=s.events[-60:], trace=s.trace))
+    elif reason == "step-cap" and s.timer_fires >= 50:
+        # a correct lock that waits in short timed slices spins for as long
+        # as a stalled holder stays away: with a long stall that exhausts the
+        # step budget without being a livelock.  Inconclusive, not a verdict.
+        core.bump(out["probes"], "inconclusive_busy_wait_under_stall")
     elif reason == "step-cap":
         out["violation"] = core.violation(
             ID, "progress", "step-cap",
